@@ -20,6 +20,7 @@ fn main() {
         "C01" => wire_eng::c01(&args),
         "C02" => wire_eng::c02(&args),
         "C03" => wire_eng::c03(&args),
+        "C09" => fbrv::engines::conc_eng::c09(&args),
         "C12" => wire_eng::c12(&args),
         "C04" => transport_eng::run(&args, "C04"),
         "C05" => ptfs_eng::c05(&args),
